@@ -326,7 +326,112 @@ class ShapeFlow:
                     if r is None:
                         return None
                     res |= r
+                elif kv is None:
+                    # computed key (`map.insert(Tag::from(x), component)`): decided per path, see computed_key_inserts
+                    m = self.computed_key_inserts(body, ins)
+                    if m is None:
+                        return None
+                    res |= m.get(want, set())
         return res or None
+
+    def computed_key_inserts(self, body, ins):
+        """insert(k, v) whose key is not a literal variant: on every path from the head of the enclosing loop (or the function entry)
+        to the insert, the key must be a value whose discriminant was tested on that path (`match Tag::from(x) { A => ctor_a(), .. }`
+        followed by `insert(Tag::from(x), v)`); the path then contributes (tested variant -> constructors of v on that path).
+        None when some path does not determine the key."""
+        ck = ('cki', self.body_key(body), ins.block)
+        if ck in self._ret:
+            return self._ret[ck]
+        self._ret[ck] = None
+        from sym import enum_paths, run_path, PathLimit
+        ib = ins.block
+
+        def reach(s):
+            seen = {s}
+            q = [s]
+            while q:
+                x = q.pop()
+                for y in body.succ[x]:
+                    if y not in seen:
+                        seen.add(y)
+                        q.append(y)
+            return seen
+        down = reach(ib)
+        scc = set(x for x in down if ib in reach(x))
+        heads = [x for x in scc if any(p not in scc for p in body.pred[x])] if len(scc) > 1 else [0]
+        if len(heads) != 1:
+            return None
+        try:
+            paths = enum_paths(body, start=heads[0], limit=50000, stop_blocks=[ib])
+        except PathLimit:
+            return None
+        adt = None
+        out = {}
+        n = 0
+        for p in paths:
+            if p[-1] != ib or ib in p[:-1]:
+                continue
+            st = run_path(body, p, self.P)
+            if not st.feasible:
+                continue
+            st.cur = ib
+            k = strip(resolve(st, st.operand(ins.args[1])))
+            v = resolve(st, st.operand(ins.args[2]))
+            variant = None
+            for ev in st.events:
+                if ev[0] == 'branch' and ev[3] is not None:
+                    d = strip(resolve(st, ev[2]))
+                    if d[0] == 'discr' and strip(d[1]) == k and d[2]:
+                        variant = (d[2], ev[3])
+            if variant is None:
+                return None
+            name = None
+            for a, info in self.P.adts.items():
+                if a == variant[0] or variant[0].endswith(a):
+                    for vv in info['variants']:
+                        if vv.get('discr') == variant[1]:
+                            name = vv['name']
+            if name is None:
+                return None
+            cs = set()
+
+            bad = []
+
+            def spine(e, depth=0):
+                # the component the value is (or wraps): through wrappers, payloads and in-place mutations (`c.read(..)` keeps c's constructor)
+                if not isinstance(e, tuple) or depth > 80 or not e:
+                    return
+                if e[0] in ('via',):
+                    spine(e[2], depth + 1)
+                elif e[0] in ('field', 'variant', 'ref', 'deref', 'refm', 'cast'):
+                    spine(e[1], depth + 1)
+                elif e[0] == 'mutated':
+                    spine(e[3], depth + 1)
+                elif e[0] == 'agg':
+                    for x in e[3]:
+                        spine(x, depth + 1)
+                elif e[0] == 'call':
+                    if e[1] in self.ctors:
+                        cs.add(e[1])
+                    else:
+                        r = self.ret_ctors(e[1]) if e[1] in self.P.bodies else None
+                        if r is None:
+                            bad.append(e[1])
+                        else:
+                            cs.update(r)
+                elif e[0] in ('const', 'fnconst'):
+                    pass
+                else:
+                    bad.append(e[0])
+            spine(v)
+            if bad:
+                return None
+            if not cs:
+                return None
+            out.setdefault(name, set()).update(cs)
+            n += 1
+        self._ret[ck] = out if n else None
+        return self._ret[ck]
 
     def sequence_keys(self, body):
         """string keys inserted into ASN.1 Sequence maps by `body` and its closures"""
